@@ -533,7 +533,7 @@ impl<'a> From<bool> for DataOperator<'a> {
 }
 
 /// Formats a float so that the STAMQL parser reads it back as a float: always with a decimal point
-fn float_to_string(n: f64) -> Result<String, StamError> {
+pub(crate) fn float_to_string(n: f64) -> Result<String, StamError> {
     if !n.is_finite() {
         return Err(StamError::QuerySyntaxError(
             format!("There is no query syntax for the non-finite float {}", n),
